@@ -30,6 +30,10 @@ type exChain struct {
 	holdNext int // the next holdNext getGuardianSet requests are not answered until Release
 	held     int // requests waiting right now
 	released bool
+	gated    bool // getCurrentGuardianSetIndex (made only by the periodic updater) waits for a permit
+	permits  int
+	failNth  map[string]int            // method -> the n-th next call of it fails (JSON-RPC error)
+	failed   int                       // failures delivered since ArmFailure
 	sets     []*nodecommon.GuardianSet // universe: sets[i].Index == i
 	names    [][]string
 	top      int
@@ -67,10 +71,43 @@ func exNewChain(keys *vhKeys, universe []interface{}, top int, up bool) *exChain
 }
 
 func (c *exChain) Close() {
+	c.Gate(false)
 	c.Release()
 	if c.srv != nil {
 		c.srv.Close()
 	}
+}
+
+// Gate(true) makes every getCurrentGuardianSetIndex call wait for a Permit: the real updater loop runs with a short
+// tick, and the harness lets exactly one tick's fetch through at a time.
+func (c *exChain) Gate(on bool) {
+	c.mu.Lock()
+	c.gated = on
+	c.cond.Broadcast()
+	c.mu.Unlock()
+}
+
+func (c *exChain) Permit() {
+	c.mu.Lock()
+	c.permits++
+	c.cond.Broadcast()
+	c.mu.Unlock()
+}
+
+// ArmFailure: the nth next call of method answers with a JSON-RPC error (a node-side failure).  ClearFailures
+// disarms and tells how many failures were delivered.
+func (c *exChain) ArmFailure(method string, nth int) {
+	c.mu.Lock()
+	c.failNth = map[string]int{method: nth}
+	c.failed = 0
+	c.mu.Unlock()
+}
+
+func (c *exChain) ClearFailures() int {
+	c.mu.Lock()
+	defer c.mu.Unlock()
+	c.failNth = nil
+	return c.failed
 }
 
 // HoldNext makes the node keep the answers to the next n getGuardianSet calls back until Release (a slow RPC round
@@ -163,6 +200,24 @@ func (c *exChain) ServeHTTP(w http.ResponseWriter, r *http.Request) {
 		}
 		c.mu.Lock()
 		c.calls++
+		if m.Name == "getCurrentGuardianSetIndex" {
+			for c.gated && c.permits == 0 {
+				c.cond.Wait()
+			}
+			if c.gated {
+				c.permits--
+			}
+		}
+		if n, ok := c.failNth[m.Name]; ok {
+			if n <= 1 {
+				delete(c.failNth, m.Name)
+				c.failed++
+				c.mu.Unlock()
+				reply(nil, "the node failed to answer "+m.Name)
+				return
+			}
+			c.failNth[m.Name] = n - 1
+		}
 		if m.Name == "getGuardianSet" && c.holdNext > 0 {
 			c.holdNext--
 			c.held++
